@@ -286,7 +286,7 @@ func (sc *c42Scenario) caseObj(w *world) map[string]any {
 
 func TestC42(t *testing.T) {
 	rec := evi.New(t, "C42", evi.Exploration,
-		"one case = pipeline config (1..16 decode workers, validation off or 1..16 validate workers, buffer 1..64, max-pending 1..default) + 1..N submissions by 1..3 submitter goroutines of real fixture blocks / header-only mainnet blocks (good) and truncated / byte-flipped / mistyped / empty ones (bad), each with generated latencies injected into its decode worker, validate worker and ApplyFunc, + Stop at a generated instant (after the k-th Submit began / k-th ApplyFunc call, plus a delay) or after the drain; non-trivial = at least 3 submissions and (a later block overtook an earlier one inside the worker pools, or Stop raced with unfinished submissions, or a bad block sat between good ones); distinct by config+items+stop plan")
+		"one case = pipeline config (1..16 decode workers, validation off or 1..16 validate workers, buffer 1..64, max-pending 1..default) + 1..N submissions by 1..3 submitter goroutines of real fixture blocks / header-only mainnet blocks (good) and truncated / byte-flipped / mistyped / empty ones (bad), with validation on 1 decodable block in 12 fails in the validate stage because the nonce provider returns a plain / context-wrapping / bare context error for it (bad), each with generated latencies injected into its decode worker, validate worker and ApplyFunc, + Stop at a generated instant (after the k-th Submit began / k-th ApplyFunc call, plus a delay) or after the drain; non-trivial = at least 3 submissions and (a later block overtook an earlier one inside the worker pools, or Stop raced with unfinished submissions, or a bad block sat between good ones); distinct by config+items+stop plan; before the generated cases a deterministic sweep of 60 provider-failure runs (5 error kinds x failing position first/middle/last/three in a row x 1,2,5 workers)")
 	defer rec.Finish()
 	rec.Assume(
 		"'decodes' / 'validates' are defined by calling ledger.NewBlockFromCbor / ledger.VerifyBlock directly with the pipeline's configuration (the property is about routing and ordering, not about the decoder)",
@@ -295,6 +295,7 @@ func TestC42(t *testing.T) {
 		"submissions use context.Background(): failed submissions are C44's subject",
 	)
 	maxN := rec.Pick(40, 120)
+	c42ProviderFailureSweep(rec)
 	rec.Check(func(rt *rapid.T) {
 		sc := genC42(rt, maxN)
 		o, err := runC42(sc)
@@ -317,6 +318,9 @@ func TestC42(t *testing.T) {
 			} else {
 				nBad++
 				rec.Class("bad_" + p.In.class(validate) + "_" + p.In.Spec.Kind)
+				if p.In.ProvErr != "" {
+					rec.Class("provider_failure_" + p.In.ProvErr)
+				}
 			}
 		}
 		rec.ClassN("items_good", nGood)
@@ -385,4 +389,48 @@ func TestC42(t *testing.T) {
 			rec.Fail(rt, f.key, f.what, sc.caseObj(w))
 		}
 	})
+}
+
+// c42ProviderFailureSweep is the deterministic part: with validation enabled,
+// six good blocks of which the first / a middle one / the last / three in a row
+// fail in the validate stage because the nonce provider returns a plain error,
+// an error wrapping context.DeadlineExceeded / context.Canceled, or the bare
+// context errors - while the pipeline context is alive - with 1, 2 and 5
+// workers per stage. Same oracle as the generated cases (run to completion).
+func c42ProviderFailureSweep(rec *evi.Recorder) {
+	loadBases()
+	cases := 0
+	for _, kind := range []string{"wraps-deadline-exceeded", "wraps-canceled", "bare-deadline-exceeded", "bare-canceled", "plain"} {
+		for _, pos := range [][]int{{2}, {0}, {5}, {1, 2, 3}} {
+			for _, workers := range []int{1, 2, 5} {
+				sc := &c42Scenario{Cfg: pipeCfg{DecodeW: workers, ValidateW: workers, Buf: 8, SkipBodyHash: true}, Submitters: 1}
+				for i := 0; i < 6; i++ {
+					in := classify(inputSpec{Base: nFixture + i%3, Kind: "valid"}, true, true)
+					for _, p := range pos {
+						if p == i {
+							in = withProviderFailure(in, kind)
+						}
+					}
+					sc.Items = append(sc.Items, &itemPlan{ID: i + 1, In: in, CtxKind: ctxPatient})
+				}
+				o, err := runC42(sc)
+				if err != nil {
+					rec.Violation("harness:start", err.Error(), nil)
+					return
+				}
+				fs := judgeC42(sc, o)
+				rec.Eval()
+				cases++
+				rec.NonTrivial(fmt.Sprintf("sweep kind=%s pos=%v workers=%d", kind, pos, workers), nil)
+				for _, f := range fs {
+					rec.Violation(f.key+":validate-stage-error="+kind, fmt.Sprintf("provider failure sweep (block positions %v fail with a %s error in the validate stage, %d workers per stage): %s", pos, kind, workers, f.what), sc.caseObj(o.w))
+				}
+				if len(fs) > 0 {
+					rec.SetExtra("n_provider_failure_sweep_cases", cases)
+					return // one replay is enough; every failing run costs a bounded-liveness wait
+				}
+			}
+		}
+	}
+	rec.SetExtra("n_provider_failure_sweep_cases", cases)
 }
